@@ -75,6 +75,9 @@ func (s *sender) run(ctx context.Context) error {
 				default:
 				}
 				if err := s.sendFile(h); err != nil {
+					// tell the receiver, as the walk does: it is waiting for
+					// this file's data and nothing else would wake it up
+					s.conn.SendMsg(&types.Packet{Type: types.PACKET_ERR, Data: []byte(err.Error())})
 					return err
 				}
 			}
